@@ -10,6 +10,7 @@
  */
 #define _GNU_SOURCE
 #include <errno.h>
+#include <fcntl.h>
 #include <inttypes.h>
 #include <signal.h>
 #include <stdlib.h>
@@ -73,6 +74,12 @@ static void run_plan(const struct plan *p, struct outcome *o, int verbose)
 		exit(2);
 	}
 	if (pid == 0) {
+		/* identical descriptors 0 in every mode (a broken library may touch it) */
+		int nfd = open("/dev/null", O_RDWR);
+		if (nfd > 0) {
+			dup2(nfd, 0);
+			close(nfd);
+		}
 		engine_run(p, -1, verbose);
 		_exit(99);
 	}
